@@ -176,7 +176,7 @@ w('C03', 'Validate stops checking the version length', 'C03.R4',
 w('C03', 'Validate accepts short proof items', 'C03.R4',
   (HT, '\t\tif len(proof) != 32 {', '\t\tif len(proof) > 32 {'))
 w('C03', 'Validate accepts zero amount', 'C03.R4',
-  (HT, 'if !msg.Amount.IsValid() || msg.Amount.IsZero() {\n\t\treturn ErrInvalidAmount\n\t}\n\n\tif msg.Sequence == 0 {', 'if !msg.Amount.IsValid() {\n\t\treturn ErrInvalidAmount\n\t}\n\n\tif msg.Sequence == 0 {'))
+  (HT, 'if !msg.Amount.IsValid() || msg.Amount.IsZero() || !msg.Amount.Amount.IsUint64() {', 'if !msg.Amount.IsValid() || !msg.Amount.Amount.IsUint64() {'))
 w('C03', 'BENIGN: IsFinalized inlined into the handler as two statements', '',
   (HM, '\tif ok, err := ms.IsFinalized(ctx, bridgeId, outputIndex); err != nil {\n\t\treturn nil, err\n\t} else if !ok {\n\t\treturn nil, types.ErrNotFinalized\n\t}\n\n\toutputProposal, err := ms.GetOutputProposal(ctx, bridgeId, outputIndex)\n\tif err != nil {\n\t\treturn nil, err\n\t}',
        '\toutputProposal, err := ms.GetOutputProposal(ctx, bridgeId, outputIndex)\n\tif err != nil {\n\t\treturn nil, err\n\t}\n\tfinal, err := ms.isFinalized(ctx, bridgeId, outputProposal)\n\tif err != nil {\n\t\treturn nil, err\n\t}\n\tif !final {\n\t\treturn nil, types.ErrNotFinalized\n\t}'))
